@@ -82,6 +82,31 @@ class Effects:
                         out.update(x for x in operand_fn_refs(a) if x in local)
             self.direct[b.nname] = eff
             self.edges[b.nname] = out
+        # direct effects with unknown helpers (functions that do not exist on the reference tree) folded into the
+        # known functions that call them: extracting `self.x = ..` into a private helper keeps the caller a writer of x
+        self.folded = {n: set(e) for n, e in self.direct.items()}
+        helpers = {b.nname for b in facts.bodies if facts.is_unknown_helper(b)}
+        if helpers:
+            rev = {}
+            for n, outs in self.edges.items():
+                for m in outs:
+                    rev.setdefault(m, set()).add(n)
+            for h in helpers:
+                seen, work, known = set(), [h], set()
+                while work:
+                    x = work.pop()
+                    if x in seen:
+                        continue
+                    seen.add(x)
+                    for c in rev.get(x, ()):
+                        if c in helpers:
+                            work.append(c)
+                        else:
+                            known.add(c)
+                for c in known:
+                    self.folded[c] |= self.direct[h]
+            for h in helpers:
+                self.folded.pop(h, None)
         self.trans = {n: set(e) for n, e in self.direct.items()}
         changed = True
         while changed:
@@ -103,7 +128,7 @@ class Effects:
         return ('W:%s.%s' % (adt, field)) in e or ('M:%s.%s' % (adt, field)) in e
 
     def writers_of(self, adt, field, direct=True, kinds=('W', 'M')):
-        src = self.direct if direct else self.trans
+        src = self.folded if direct else self.trans
         atoms = {'%s:%s.%s' % (k, adt, field) for k in kinds}
         return sorted(n for n, e in src.items() if e & atoms)
 
